@@ -189,10 +189,11 @@ def order_body(cls_name, which):
     return body
 
 
-def make_order_body(cls_name, which, perm, quat):
+def make_order_body(cls_name, which, perm, quat, nsign=None):
     base = CYCLES[which]
     q = SH.QUATS[quat]
     R = O.rot_from_quat(*q) if q else None
+    nvec = [F(nsign or 1) * x for x in (O.matvec(R, [F(0), F(0), F(1)]) if R is not None else [F(0), F(0), F(1)])]
 
     def body(H, V):
         import coxeter.shapes as S
@@ -207,14 +208,17 @@ def make_order_body(cls_name, which, perm, quat):
             P.append([s * p[k] + t[k] for k in range(3)])
         inp = H.arr(P)
         keep = [list(r) for r in inp]
+        kw = {} if nsign is None else dict(normal=H.arr([H.num(x) for x in nvec]))
         if cls_name == "ConvexPolygon":
-            shp = S.ConvexPolygon(inp)
+            shp = S.ConvexPolygon(inp, **kw)
             core = shp
         else:
-            shp = S.ConvexSpheropolygon(inp, H.num(F(1, 2)))
+            shp = S.ConvexSpheropolygon(inp, H.num(F(1, 2)), **kw)
             core = shp.polygon
         vs = [list(v) for v in core.vertices]
         nrm = list(core.normal)
+        if nsign is not None:
+            H.claim_all_eq("normal=requested", nrm, nvec)
         m = O.polygon_measures(vs, nrm)
         H.claim("ccw_about_normal", m["A"] > 0)
         # same cyclic sequence as the convex cycle (either direction is excluded by the sign above)
@@ -230,6 +234,44 @@ def make_order_body(cls_name, which, perm, quat):
         H.claim("vertices_form_the_convex_cycle", ok)
         H.claim("stores_a_copy", not bool(rnp.shares_memory(core._vertices, inp)))
         H.claim_all_eq("caller_array_unchanged", [list(r) for r in inp], keep)
+
+    return body
+
+
+def explicit_normal_body(cname, reverse, nsign, quat, start):
+    """A simple polygon listed counter-clockwise or clockwise, from any start vertex, with an explicit normal of either sign:
+    accepted, the requested normal is stored, the vertices are stored as given, the signed area has the matching sign."""
+    base = CYCLES[cname]
+    n = len(base)
+    order = [(start + (-j if reverse else j)) % n for j in range(n)]
+    q = SH.QUATS[quat]
+    R = O.rot_from_quat(*q) if q else None
+    nvec = [F(nsign) * x for x in (O.matvec(R, [F(0), F(0), F(1)]) if R is not None else [F(0), F(0), F(1)])]
+
+    def body(H, V):
+        import coxeter.shapes as S
+
+        s, t = V["s"], [V["tx"], V["ty"], V["tz"]]
+        P = []
+        for i in order:
+            p = [F(base[i][0]), F(base[i][1]), F(0)]
+            if R is not None:
+                p = O.matvec(R, p)
+            P.append([s * p[k] + t[k] for k in range(3)])
+        inp = H.arr(P)
+        keep = [list(r) for r in inp]
+        try:
+            poly = S.Polygon(inp, normal=H.arr([H.num(x) for x in nvec]))
+        except ValueError as ex:
+            H.fail("accepted", "ValueError: %s" % str(ex)[:100])
+            return
+        H.ok("accepted")
+        H.claim_all_eq("normal=requested", list(poly.normal), nvec)
+        H.claim_all_eq("stored_vertices=input", poly.vertices, keep)
+        want_positive = (not reverse) == (nsign > 0)
+        H.claim("signed_area_sign", (poly.signed_area > 0) if want_positive else (poly.signed_area < 0))
+        A2 = abs(sum(F(base[i][0]) * F(base[(i + 1) % n][1]) - F(base[(i + 1) % n][0]) * F(base[i][1]) for i in range(n))) / 2
+        H.claim_eq("area", poly.area, A2 * s * s)
 
     return body
 
@@ -343,6 +385,27 @@ def obligations(tier, seed):
                 nm, ["s", "tx", "ty", "tz"], make_order_body(cls, "quad", perm, quat), positive=["s"], first_sample=first, max_paths=2,
                 functions=functions_encoded([getattr(S, cls).__init__, S.ConvexPolygon._reorder_verts]), stubs=["ConvexHull / kabsch contract stubs"],
                 bounds="%s from the convex quadrilateral in input order %s, free scale/translation, plane %s" % (cls, perm, quat)))))
+    # explicit normals of either sign (the default normal comes from the first three vertices; an explicit one need not agree with it)
+    nsel = [p for p in quad_perms if p[0] == 0] if tier == "quick" else quad_perms
+    for perm in nsel:
+        for cls in ("ConvexPolygon", "ConvexSpheropolygon"):
+            for nsign in (1, -1):
+                quat = "r1" if cls == "ConvexPolygon" else "r2"
+                nm = "C15/%s.order_explicit_normal.quad.%s.%s" % (cls, "".join(map(str, perm)), "plus" if nsign > 0 else "minus")
+                obs.append((nm, (lambda nm=nm, cls=cls, perm=perm, quat=quat, nsign=nsign: run_e2(
+                    nm, ["s", "tx", "ty", "tz"], make_order_body(cls, "quad", perm, quat, nsign), positive=["s"], first_sample=first, max_paths=2,
+                    functions=functions_encoded([getattr(S, cls).__init__, S.Polygon.__init__, S.ConvexPolygon._reorder_verts]), stubs=["ConvexHull / kabsch contract stubs"],
+                    bounds="%s from the convex quadrilateral in input order %s with the explicit normal %s n, free scale/translation, plane %s" % (cls, perm, "+" if nsign > 0 else "-", quat)))))
+    ecfg = [(c, rev, ns, "r1", st) for c in ("L", "arrow") for rev in (False, True) for ns in (1, -1) for st in ((0, 3) if c == "L" else (0, 2))]
+    if tier == "thorough":
+        ecfg = [(c, rev, ns, q, st) for c in ("L", "arrow", "quad", "pent") for rev in (False, True) for ns in (1, -1) for q in ("id", "r1", "r3") for st in range(len(CYCLES[c]))]
+    for cname, rev, ns, quat, st in ecfg:
+        nm = "C15/Polygon.explicit_normal.%s.%s.start%d.%s.%s" % (cname, "cw" if rev else "ccw", st, "plus" if ns > 0 else "minus", quat)
+        obs.append((nm, (lambda nm=nm, cname=cname, rev=rev, ns=ns, quat=quat, st=st: run_e2(
+            nm, ["s", "tx", "ty", "tz"], explicit_normal_body(cname, rev, ns, quat, st), positive=["s"], first_sample=first, max_paths=2,
+            pre=lambda V: [V["s"] >= F(1, 4), V["s"] <= 100] + [c for k in ("tx", "ty", "tz") for c in (V[k] >= -100, V[k] <= 100)],
+            functions=functions_encoded([S.Polygon.__init__, polygon._is_simple]), stubs=["kabsch contract stub"],
+            bounds="simple polygon %s listed %s from vertex %d with explicit normal %s n, plane %s, scale in [1/4, 100], translation in [-100, 100]^3 (the vendored sweep uses absolute 1e-10 bands); real sweep" % (cname, "clockwise" if rev else "counter-clockwise", st, "+" if ns > 0 else "-", quat)))))
     for kind in ("Polyhedron", "ConvexPolyhedron", "ConvexSpheropolyhedron"):
         nm = "C15/%s.aliasing" % kind
         obs.append((nm, (lambda nm=nm, kind=kind: run_e2(nm, ["s", "tx", "ty", "tz"], polyhedron_alias_body(kind), positive=["s"], first_sample=first, max_paths=2,
